@@ -314,7 +314,7 @@ def stream_grid(c, T):
             if kind == 'idx': rs = [r for r in rs if r[0] >= 0]
             per.append(rs)
         combos = list(itertools.product(*per))
-        limit = 2500 if quick else 40000
+        limit = 1500 if quick else 40000
         if len(combos) > limit:
             combos = c.rng.sample(combos, limit)
         for combo in combos:
@@ -664,7 +664,7 @@ def real_deps(node):
 def stream_expr(c):
     """(M2) model Expr vs real DAG: range, arguments, evaluated values, and the value preservation of `simplified`"""
     ev = lib()[0]
-    N = 250 if c.tier == 'quick' else 10000
+    N = 220 if c.tier == 'quick' else 10000
     reqs = []; meta = []
     ntry = 0
     while len(meta) < N and ntry < 20 * N:
@@ -1097,7 +1097,7 @@ def bind_loops(node):
 
 def stream_dag(c):
     ev = lib()[0]
-    ndags = 40 if c.tier == 'quick' else 1200
+    ndags = 32 if c.tier == 'quick' else 1200
     stats = collections.Counter()
     nviol = collections.Counter()
     unexpected = []
